@@ -851,7 +851,7 @@ def sizes_of(case):
 
 ANCHOR = "persim/wasserstein.py"
 ANCHOR_DIGEST = "0f8d09801cb15803"       # structural digest of `wasserstein` the model mirrors (after /repo fixes 6c9bac1: distances from
-                                         # coordinate differences, dcbfa71: inputs converted with dtype=float, WFIXCOMMIT: diagonal cost
+                                         # coordinate differences, dcbfa71: inputs converted with dtype=float, a50c928: diagonal cost
                                          # (d - b)/np.sqrt(2) from the coordinate difference instead of the rotation by pi/4)
 
 
